@@ -7,7 +7,7 @@ import impl
 
 PID = "C08"
 LEAN_MODULES = ["BtcHd.Props.C08"]
-LEAN_MODULES_THOROUGH = ['BtcHd.Props.TrBip39']
+LEAN_MODULES_THOROUGH = ['BtcHd.Props.TrBip39', 'BtcHd.Props.TrText']
 TRUSTED_BASE = common.CORE_TRUSTED + [
     "PARTIAL by nature: that bip39.random is a SystemRandom reading os.urandom, and that the kernel CSPRNG is "
     "unpredictable, are not theorems; they are tied by replacing os.urandom / random._urandom with a recording stub"]
